@@ -12,6 +12,7 @@ mod c11;
 mod c10;
 mod c03;
 mod c01;
+mod c04;
 mod vp8lbits;
 mod animgen;
 mod webpfile;
@@ -84,6 +85,7 @@ fn main() {
         "C10" => c10::run(&o),
         "C03" => c03::run(&o),
         "C01" => c01::run(&o),
+        "C04" => c04::run(&o),
         _ => {
             eprintln!("unknown property {prop}");
             std::process::exit(2);
